@@ -19,7 +19,9 @@
 (***************************************************************************)
 EXTENDS Integers, FiniteSets, TLC
 
-CONSTANTS Topics, Chans, PersistAfterDelete, MaxKills, MaxOps
+CONSTANTS Topics, Chans, PersistAfterDelete, MaxKills, MaxOps,
+          BackupFirst    \* FALSE: the code (one rename, tmp -> final name).  TRUE: a variant that first moves the
+                         \* current file aside (final -> .bak) and then renames tmp -> final: refuted by TLC
 
 VARIABLES live, file, job, npend, http, running, visited, loaded, acked, kills, ops
 
@@ -94,10 +96,13 @@ PersistStart(by) ==
   /\ job' = [stage |-> "snap", doc |-> Proj(live), by |-> by]
   /\ UNCHANGED <<live, file, running, visited, loaded, acked, kills, ops>>
 PersistStep ==
-  /\ running /\ job.stage \in {"snap", "written", "synced"}
+  /\ running /\ job.stage \in {"snap", "written", "synced", "movedaside"}
   /\ CASE job.stage = "snap"    -> job' = [job EXCEPT !.stage = "written"] /\ UNCHANGED <<file, http, acked>>
        [] job.stage = "written" -> job' = [job EXCEPT !.stage = "synced"] /\ UNCHANGED <<file, http, acked>>
-       [] job.stage = "synced"  -> /\ file' = job.doc /\ job' = NoJob           \* rename: the only writer of the final name
+       [] job.stage = "synced" /\ BackupFirst
+                                -> file' = Absent /\ job' = [job EXCEPT !.stage = "movedaside"] /\ UNCHANGED <<http, acked>>
+       [] job.stage \in {"synced", "movedaside"} /\ ~(job.stage = "synced" /\ BackupFirst)
+                                -> /\ file' = job.doc /\ job' = NoJob           \* rename: the only writer of the final name
                                    /\ IF job.by = "http"
                                       THEN /\ http' = NoHttp                     \* ... and the response goes out
                                            /\ acked' = IF http.t # "" /\ http.t \in DOMAIN job.doc /\ (http.c = "" \/ http.c \in DOMAIN job.doc[http.t].chans)
@@ -131,6 +136,8 @@ Idle == running /\ npend = 0 /\ job = NoJob /\ http = NoHttp
 \* the document a restart would load is one the daemon passed through
 RestartSetWasVisited == file # Absent => file \in visited
 LoadedWasVisited     == loaded \in visited
+\* the final name, once it holds a document, always holds one: a restart never finds the data path without metadata
+FileNeverVanishes == [][file # Absent => file' # Absent]_vars
 \* once idle, the file is exactly the current topics/channels with their flags:
 \* every completed creation is in it, every completed deletion is out of it
 IdleFileEqualsLive == (Idle /\ (file # Absent \/ DOMAIN live # {})) => file = Current(live)
